@@ -1,5 +1,5 @@
 """C14: version gating follows semantic versioning in the runtime and in the emulator."""
-import os, re, itertools, subprocess, json
+import os, re, itertools, subprocess, json, shutil
 from lib.common import Ctx, Build, Scratch, InfraError, pmap
 from lib import emusrv, catalog, obs
 from lib.emusrv import Ev, i32, i64
@@ -157,6 +157,14 @@ def run(prop, tier):
             jobs.append(("mixed", model, (ok_v, bad_v), False, None))
             jobs.append(("mixed", model, (bad_v, ok_v), False, None))
             jobs.append(("mixed", model, (ok_v, "%d.0.0" % have[0]), True, None))
+            if model != "ovni":
+                # the model is required by one stream only (either one): it is enabled for the whole trace
+                jobs.append(("only", model, 0, True, None))
+                jobs.append(("only", model, 1, True, None))
+                # the same with the requiring stream's directory reached through a symbolic link; and an incompatible
+                # requirement behind a link is still seen
+                jobs.append(("only", model, 1, True, ("link",)))
+                jobs.append(("mixed", model, (ok_v, bad_v), False, ("link",)))
         # all subsets of required models x one probe per model (+ forced -a)
         names = sorted(PROBE)
         subsets = list(itertools.chain.from_iterable(itertools.combinations(names, k) for k in range(len(names) + 1)))
@@ -184,6 +192,14 @@ def run(prop, tier):
                     meta = json.load(open(pth))
                     meta["ovni"]["require"][model] = v
                     json.dump(meta, open(pth, "w"))
+            elif kind == "only":
+                system = emusrv.System(spec, require={"ovni": cat["ovni"]["version"], model: cat[model]["version"]})
+                a, b = PROBE[model]
+                emusrv.materialise(system, td, X + [Ev(0, a), Ev(0, b)] + E, {0: rels[0], 1: rels[1]})
+                pth = os.path.join(td, rels[1 - arg], "stream.json")
+                meta = json.load(open(pth))
+                del meta["ovni"]["require"][model]
+                json.dump(meta, open(pth, "w"))
             else:
                 req = {"ovni": cat["ovni"]["version"]}
                 for s in arg:
@@ -191,7 +207,15 @@ def run(prop, tier):
                 system = emusrv.System(spec, require=req)
                 a, b = PROBE[model]
                 emusrv.materialise(system, td, X + [Ev(0, a), Ev(0, b)] + E, {0: rels[0], 1: rels[1]})
-            rc, out, err = emusrv.run_tool(emu, ["-l"] + list(flags or ()) + [td])
+            eflags = [f for f in (flags or ()) if f != "link"]
+            if flags and "link" in flags:
+                # the second stream's directory lives elsewhere and is reached through a symbolic link
+                ext = td + "-ext"
+                shutil.rmtree(ext, ignore_errors=True)
+                os.makedirs(ext)
+                shutil.move(os.path.join(td, rels[1]), os.path.join(ext, "thread.102"))
+                os.symlink(os.path.join(ext, "thread.102"), os.path.join(td, rels[1]))
+            rc, out, err = emusrv.run_tool(emu, ["-l"] + eflags + [td])
             ok = (rc == 0 and "emulation finished ok" in err)
             lines = [l for l in err.split("\n") if "ERROR" in l][:1]
             return rc, ok, " ".join(lines)
@@ -209,12 +233,48 @@ def run(prop, tier):
                     {"engine": "real ovniemu", "kind": kind, "model": model, "arg": arg, "flags": flags}, {"kind": "emu-" + kind, "model": model})
         ctx.add(states=len(jobs))
         ctx.part("emulator", runs=len(jobs), subsets=len(subsets))
+        # (d) end to end through the runtime: the program states the version it needs with ovni_thread_require()
+        # (for the base model on top of the library's own request); the emulator must then decide on that version
+        from checks import rt as _rt
+        rexe = _rt.build_driver(build, None, variant="plain")
+        rbase = scratch.sub("rt")
+        rjobs = []
+        for model, d in cat.items():
+            have = tuple(int(x) for x in d["version"].split("."))
+            for dm, dn in itertools.product((-1, 0, 1), repeat=2):
+                w = (have[0] + dm, have[1] + dn, 0)
+                if min(w) < 0:
+                    continue
+                rjobs.append((model, "%d.%d.%d" % w, compatible(w, have)))
+
+        def one_rt(j):
+            model, v, want = j
+            cd = os.path.join(rbase, "r%d" % os.getpid())
+            rc, err, log = _rt.run_case(rexe, cd, ["R:%s:%s" % (model, v), "X", "E"])
+            if "DONE" not in log:
+                return None, "driver did not finish: %s" % err[-200:]
+            rc2, out, err2 = emusrv.run_tool(emu, ["-l", os.path.join(cd, "trace")])
+            ok = (rc2 == 0 and "emulation finished ok" in err2)
+            req = json.load(open(os.path.join(_rt.stream_path(cd), "stream.json")))["ovni"]["require"].get(model)
+            return ok, "metadata says %r" % req
+        for (model, v, want), (ok, info) in zip(rjobs, pmap(one_rt, rjobs)):
+            ctx.add(evaluations=1, transitions=1, traces_validated_against_impl=1)
+            if not want:
+                ctx.add(refusing_side=1)
+            if ok is None:
+                ctx.violation("runtime: a program requiring %s %s could not be traced: %s" % (model, v, info),
+                              {"engine": "E1 rt_driver + real ovniemu", "model": model, "version": v}, {"kind": "rt-require"})
+            elif ok != want:
+                ctx.violation("a program that requires %s %s (emulator provides %s): the emulator %s the trace (%s)" % (
+                    model, v, cat[model]["version"], "accepts" if ok else "rejects", info),
+                    {"engine": "E1 rt_driver + real ovniemu", "model": model, "version": v}, {"kind": "rt-require", "model": model})
+        ctx.part("runtime-require", runs=len(rjobs))
         ctx.sample({"compat": {"want": [1, 2, 0], "have": [1, 1, 2], "expected": False}})
         ctx.sample({"emulator_trace": "two threads; metadata requires nosv 2.5.0 with emulator model 2.4.0 -> must be rejected"})
         ctx.cov["rule"] = ("version_is_compatible on all pairs of triples over {0,1,2}^3; version_parse on every string of length <= 6/7 over {0,1,.,-,a} "
                            "against a regular-expression reference (leading zeros not judged); ovni_version_check_str on the +-1 cube around the "
                            "library version; real ovniemu on traces requiring every version in the +-1 cube of each of the 8 models, mixed "
-                           "requirements across streams in both orders, malformed strings, the same with -a, components beyond the int range, and subsets of required models x one probe event per model (+ -a)")
+                           "requirements across streams in both orders, a model required by one stream only (also behind a symbolic link), malformed strings, the same with -a, components beyond the int range, and subsets of required models x one probe event per model (+ -a)")
         # non-trivial = cases on the refusing side of the relation (incompatible pair, malformed string, model not required)
         ctx.cov["distinct_nontrivial"] = ctx.cov.get("refusing_side", 0)
         return ctx.finish()
